@@ -172,6 +172,20 @@ theorem packages_named_correctly : Gen.packageEntries.all entryOk = true := by d
 
 theorem packages_nonempty : 500 ≤ Gen.packageEntries.length := by decide +kernel
 
+/-- type entries that are deliberately registered as POINTERS to the named type: the sync types (their values must
+not be copied) and the helper type of packages/ itself -/
+def pointerRegistered : List (String × String) :=
+  [("sort", "SortFuncsStruct"), ("sync", "Cond"), ("sync", "Map"), ("sync", "Mutex"), ("sync", "Once"), ("sync", "Pool"),
+   ("sync", "RWMutex"), ("sync", "WaitGroup")]
+
+/-- Every type offered to scripts is the named Go type itself - not a pointer to it, not what it points to - with
+the audited exceptions above, which are exactly one pointer away. -/
+theorem package_types_have_the_listed_indirection :
+    Gen.packageTypeDepths.all (fun e => if pointerRegistered.contains (e.1, e.2.1) then e.2.2 == 1 else e.2.2 == 0) = true := by
+  decide +kernel
+
+theorem package_types_nonempty : 20 ≤ Gen.packageTypeDepths.length := by decide +kernel
+
 /-! ### keys / conversions -/
 
 theorem keys_every_key_once (kvs : List (Val × Val)) : keysB (.map kvs) = some (kvs.map (·.1)) := rfl
